@@ -6,8 +6,7 @@ CFG = dict(
     n=dict(quick=48, thorough=3000),
     shard=6,
     harness_dirs=["C19", "C22"],
-    deps=["C19"],
-    rule="case 0 is the scripted minimal witness of the same-host release/claim race; each other case = one pool (1-4 blocks of 2-4 "
+    rule="case 0 is the scripted minimal witness of the same-host release/claim race, case 1 the scripted left-over affinity row: AutoAssign claims a block, ReleaseAffinity(mustBeEmpty=false) of the non-empty block crashes after clearing the block's Affinity field and before deleting the pendingDeletion row, the restarted host runs AutoAssign (getBlockFromAffinity on a block with nil Affinity), the addresses are released and another host claims the block; crashes are also injected preferentially just before an affinity row is deleted; each other case = one pool (1-4 blocks of 2-4 "
          "addresses), 2-3 hosts, an IPAM config (strict affinity / auto-allocate / block limit) and 1-3 clients of the REAL "
          "ipamClient, each running 2-15 ClaimAffinity / ReleaseAffinity(mustBeEmpty or not) / ReleaseHostAffinities / AutoAssign / "
          "AssignIP / ReleaseIPs / ReleaseByHandle operations aimed mostly at one contested block, against the in-memory CAS backend; "
